@@ -196,7 +196,7 @@ const TEXTS: &[&str] = &[
 
 fn raw_text(rng: &mut Rng, ctx: &mut Ctx) -> String {
     if ctx.tiny {
-        return rng.pick(TEXTS).to_string();
+        return rng.pick(&["", "a", "ab", "a b", "é", "ノ", "q\"q"]).to_string();
     }
     match rng.below(10) {
         0..=5 => rng.pick(TEXTS).to_string(),
@@ -215,8 +215,18 @@ fn raw_text(rng: &mut Rng, ctx: &mut Ctx) -> String {
 }
 
 fn raw_value(rng: &mut Rng, ctx: &mut Ctx, depth: u32) -> Value {
-    let depth = if ctx.tiny { depth.min(1) } else { depth };
-    let top = if depth == 0 { 9 } else { 11 + 2 * (!ctx.tiny) as u64 };
+    if ctx.tiny {
+        // Interpreted runs look for undefined behaviour in the buffer handling, not for Recon
+        // coverage: numbers with many digits, blobs and records cost minutes each under Miri.
+        return match rng.below(6) {
+            0 => Value::Extant,
+            1 => Value::BooleanValue(rng.bool()),
+            2 | 3 => Value::Int32Value(*rng.pick(&[0, 7, -1, 42])),
+            4 => Value::text(*rng.pick(&["a", "é", "a b", "ノ"])),
+            _ => Value::Record(vec![Attr::of("a")], vec![Item::ValueItem(Value::Int32Value(1))]),
+        };
+    }
+    let top = if depth == 0 { 9 } else { 13 };
     match rng.below(top) {
         0 => Value::Extant,
         1 => Value::BooleanValue(rng.bool()),
